@@ -5,6 +5,8 @@ mod alloc;
 mod gc;
 mod merge;
 mod strings;
+#[cfg(vbxq_aelys_lang_verif)]
+mod verif;
 
 use crate::object::{GcObject, GcRef};
 use std::collections::HashMap;
